@@ -339,6 +339,49 @@ def apply_sweep(ctx: Ctx):
                       broken='correspondence S-api apply_variants')
 
 
+def array_case(args):
+    """The three array_utils functions the translated kernels take as given, on one array: -> encoded results."""
+    from valiant.array_utils import get_next_index, get_prev_index, get_u8_array
+    from array import array
+    vals, i, v, n = args
+    a = array('B', vals)
+    enc = lambda x: -1 if x is None else int(x)
+    return (_call(lambda: get_prev_index(a, i, v), enc), _call(lambda: get_next_index(a, i, v), enc),
+            _call(lambda: list(get_u8_array(n)), lambda l: len(l) if all(x == 0 for x in l) else -8))
+
+
+def array_builtins_stage(ctx: Ctx):
+    """S-api tie of Model/PyLoop.v u8_prev_index / u8_next_index / u8_zeros (what Generated/KernelsGpo.v calls where the source calls
+    get_prev_index / get_next_index / get_u8_array): every array over {0, 1, 2} up to length 4, every start from -6 to 6."""
+    import itertools
+    cases = []
+    for ln in range(0, 5):
+        for vals in itertools.product((0, 1, 2), repeat=ln):
+            if ctx.tier == 'quick' and ln == 4 and ctx.rng.random() < 0.7:
+                continue
+            for i in range(-6, 7):
+                cases.append((list(vals), i, (i + ln) % 2, i))
+    res = pool_map(array_case, cases, chunksize=64)
+    def enc_coq(term):      # -> Z: the index, -1 for None, the error code
+        codes = ' | '.join(f'Err {k} => {coq_z(v)}' for k, v in ERR.items() if k in ('ValueError', 'IndexError'))
+        return f'(match {term} with Ok (Some k) => k | Ok None => -1 | {codes} | Err _ => -9 end)%Z'
+    exprs = []
+    for (vals, i, v, n), (rp, rn, rz) in zip(cases, res):
+        l = coq_list(coq_z(x) for x in vals)
+        codes = ' | '.join(f'Err {k} => {coq_z(c)}' for k, c in ERR.items() if k in ('ValueError', 'IndexError'))
+        exprs.append(f'(Z.eqb {enc_coq(f"u8_prev_index {l} {coq_z(i)} {v}")} {coq_z(rp)}) && (Z.eqb {enc_coq(f"u8_next_index {l} {coq_z(i)} {v}")} {coq_z(rn)}) && '
+                     f'(Z.eqb (match u8_zeros {coq_z(n)} with Ok z => if forallb (Z.eqb 0) z then zlen z else -8 | {codes} | Err _ => -9 end)%Z {coq_z(rz)})')
+    bad, err = coq_eval(['Model.Base', 'Model.PyLoop'], exprs)
+    ctx.corr['cases'] += len(exprs)
+    ctx.count('array_builtin_cases', len(exprs))
+    if err:
+        ctx.violation('correspondence', 'model evaluation failed: ' + err[:300], broken='coqc cases (C05 array builtins)', no_input=True)
+    for k in bad[:10]:
+        ctx.corr['disagreements'] += 1
+        ctx.violation('correspondence', f'array_utils on {cases[k]} gives {res[k]}: differs from the definitions of Model/PyLoop.v',
+                      {'surface': 'api', 'kind': 'array_builtins', 'case': list(cases[k]), 'impl': list(res[k])}, broken='correspondence array_utils vs Model/PyLoop.v')
+
+
 def bg_accept(kind: str, what: str) -> bool:
     return kind.startswith(('background_seq', 'refused', 'ref_range', 'mut_position', 'mave_nt_offset', 'row_columns:ref_start', 'row_columns:ref_end',
                             'row_extra', 'row_missing'))
@@ -351,6 +394,7 @@ def run(ctx: Ctx):
     # order the database returns them): designs whose background VCF lists its records in any order, against the pre-edited genome
     from . import c06
     c06.background_stage(ctx, ctx.n(50, 500), bg_accept, shuffle_bg=True)
+    array_builtins_stage(ctx)
     return {'rule': 'S-api: every (sampled in quick) sorted non-overlapping set of <=3 SNV/MNV/pure insertion/pure deletion of length <=3 in a context of 5-7 bases, '
                     'plus arbitrary (unsorted, tied, out-of-range, delins) sets; for each the full table of lookups (ref->alt with both nearest modes for every '
                     'position incl. outside, alt->ref, every sub-range with and without shrink, both overlap tests for lengths 0-3) from the real '
